@@ -54,6 +54,9 @@ EXTRA_DESC = {
     "t": ("ex_t", (2,), object),
     "u": ("ex_u", (), np.uint32),
     "w": ("ex_w", (3,), np.uint8),
+    # an object field holding ONLY plain Python scalars of mixed types (str / int / float / bool): a list of them is
+    # what NumPy coerces to one common dtype when it is converted without `dtype=object`
+    "p": ("ex_p", (), object),
 }
 
 
@@ -72,7 +75,13 @@ def extra_value(c, tok):
         return np.array([tok, -tok], dtype=np.int32)
     if c == "o":
         # arbitrary Python objects: an instance of a user class, or a dict (which NumPy would happily wrap)
+        # ... or plain Python scalars of MIXED types (str / int / float / bool next to each other in one batch: NumPy
+        # would coerce a list of them to one common dtype -- ['a', 1] -> '<U21', [1, 2.5] -> float64)
+        if tok % 3 == 2:
+            return [f"s{tok}", int(tok), tok + 0.5, bool(tok % 2)][(tok // 3) % 4]
         return Tok(tok) if tok % 2 == 0 else {"t": tok}
+    if c == "p":
+        return [f"s{tok}", int(tok), tok + 0.5, bool(tok % 3 == 0)][tok % 4]
     if c == "b":
         return np.full(2, tok * 0.5)
     if c == "t":
@@ -117,7 +126,7 @@ def decode_tok(layout, sol_dim, get):
             return None         # the entry lacks a field: not a complete entry of any candidate
         exp = extra_value(c, tok)
         # an object field returns the very kind of object that was stored (not, e.g., a 0-d array around it)
-        ok = (type(v) is type(exp) and v == exp) if c == "o" else np.array_equal(np.asarray(v), np.asarray(exp))
+        ok = (type(v) is type(exp) and v == exp) if c in "op" else np.array_equal(np.asarray(v), np.asarray(exp))
         if not ok:
             return None
     return tok
@@ -1260,7 +1269,7 @@ def gen_case(rng, profile="mixed", kinds=("grid", "cvt", "sb"), cma=False, dtype
     case["dtype"] = dtype or rng.choice(["f64", "f64", "f32"])
     if profile == "collide":
         case["dtype"] = "f32"
-    case["layout"] = rng.choice(["", "s", "v", "o", "sv", "svo", "m", "om", "b", "sb", "u", "uw", "ow", "su", "t", "ot"])
+    case["layout"] = rng.choice(["", "s", "v", "o", "sv", "svo", "m", "om", "b", "sb", "u", "uw", "ow", "su", "t", "ot", "p", "sp"])
     case["forms"] = gen_forms(rng)
     if case["kind"] == "cvt" and profile in ("mixed", "percell") and rng.random() < 0.3:
         # chunked brute-force search far from the origin (2^26 in float64, 2^12 in float32: quarter points of the
